@@ -30,8 +30,23 @@ rule "main" "d" salience 10
 begin
   S(@name)
   gatei(who.Id)
+  loc = who.Id
+  who.M["k"] = loc
+  who.Sl[1] = loc
   if who.Kind == 1 {
     zz = 1 / 0
+  }
+  if who.Kind == 5 {
+    who.NilM["k"] = 1
+  }
+  if who.Kind == 6 {
+    who.M[5] = 1
+  }
+  if who.Kind == 7 {
+    who.Sl[9] = 1
+  }
+  if who.Kind == 8 {
+    zz = who.NilM["k"] + who.Sl[7]
   }
   if who.Kind == 2 {
     boom()
@@ -44,7 +59,7 @@ begin
   if who.Kind == 4 {
     zz = nosuch.F + 1
   }
-  return who.Id
+  return loc
 end
 rule "aux" "d" salience 1
 begin
@@ -56,7 +71,7 @@ end
 func init() {
 	register(&Prop{
 		ID:   "C17",
-		Rule: "request histories on pools of size (1,2),(1,3),(2,3),(2,4),(3,6): start request (healthy / rule error / panicking injected function / type fault outside the self-recovering constructs / missing name) through any of the 24 pool execute methods, release the k-th outstanding request; up to max+4 outstanding, every request parks inside its rule on a Hold gate keyed by its id; oracle after every step: the number of requests parked inside rules equals min(max, outstanding) within the bound (waiters proceed, nothing lost) and never exceeds max, every finished request returned its own id (two in-flight requests on one instance would overwrite each other's injected object), a request never fails because the pool is busy, and after the history max requests park simultaneously again. Non-trivial: at some point more than max requests are outstanding and a failing or panicking request finished before the final probe; distinct by case hash",
+		Rule: "request histories on pools of size (1,2),(1,3),(2,3),(2,4),(3,6): start request (healthy / rule error / panicking injected function / type fault outside the self-recovering constructs / missing name / store into a nil map / wrong key kind / out-of-range element store and read; every request also binds a local and writes its own map and slice) through any of the 24 pool execute methods, release the k-th outstanding request; up to max+4 outstanding, every request parks inside its rule on a Hold gate keyed by its id; oracle after every step: the number of requests parked inside rules equals min(max, outstanding) within the bound (waiters proceed, nothing lost) and never exceeds max, every finished request returned its own id (two in-flight requests on one instance would overwrite each other's injected object), a request never fails because the pool is busy, and after the history max requests park simultaneously again. Non-trivial: at some point more than max requests are outstanding and a failing or panicking request finished before the final probe; distinct by case hash",
 		New:  func() interface{} { return &C17Case{} },
 		Gen: func(t *rapid.T) interface{} {
 			c := &C17Case{}
@@ -74,7 +89,7 @@ func init() {
 				}
 				f := int64(0)
 				if pct(t, fmt.Sprintf("faulty%d", i), 40) {
-					f = int64(uni(t, fmt.Sprintf("fault%d", i), 1, 4))
+					f = int64(uni(t, fmt.Sprintf("fault%d", i), 1, 8))
 				}
 				c.Ops = append(c.Ops, C17Op{Kind: "start", Fault: f, Method: uni(t, fmt.Sprintf("m%d", i), 0, 23)})
 				out++
